@@ -151,6 +151,8 @@ func (famDecoder) Exec(scn int, raw json.RawMessage, t *Trace, _ map[string]stri
 	}
 	fake := newFakeDocker(nil, scn, ctrs) // transport events are not part of this family's vocabulary
 	fake.frag = in.Frag
+	// every third scenario: the reader reports the end together with the last bytes (both are legal io.Reader behaviour)
+	fake.endWithData = scn%3 == 0
 	if in.Fault.Kind != "none" {
 		fake.faults = []Fault{{Kind: in.Fault.Kind, Ctr: indexOfCtr(ctrs, "c1"), Pos: in.Fault.Pos}}
 	}
